@@ -18,6 +18,14 @@ func main() {
 	switch os.Args[1] {
 	case "run":
 		cmdRun(os.Args[2:])
+	case "check":
+		os.Exit(cmdCheck(os.Args[2:]))
+	case "templates":
+		for _, eco := range ecosystems {
+			for _, sz := range []string{"s", "m", "l"} {
+				fmt.Printf("%s %s %d\n", eco, sz, len(versionTemplates(eco, sz)))
+			}
+		}
 	default:
 		fmt.Fprintln(os.Stderr, "unknown command", os.Args[1])
 		os.Exit(2)
@@ -99,4 +107,35 @@ func printResult(res *Result, verbose bool) {
 			fmt.Printf("  func: %s (%d)\n", k, n)
 		}
 	}
+}
+
+func cmdCheck(argv []string) int {
+	if len(argv) == 0 {
+		fmt.Fprintln(os.Stderr, "usage: vx check <id> [--tier quick|thorough] [--strict]")
+		return 2
+	}
+	id := argv[0]
+	fs := flag.NewFlagSet("check", flag.ExitOnError)
+	tier := fs.String("tier", "", "quick|thorough")
+	strict := fs.Bool("strict", false, "exit 3 on unexplored/vacuous configurations")
+	workers := fs.Int("workers", 16, "parallel workers")
+	solver := fs.String("solver", "z3", "solver")
+	filter := fs.String("filter", "", "only configurations whose id contains this")
+	verbose := fs.Bool("v", false, "progress output")
+	timeout := fs.Int("timeout", 0, "per-query timeout (ms)")
+	limit := fs.Int("limit", 0, "max configurations")
+	fs.Parse(argv[1:])
+	if *tier == "" {
+		*tier = os.Getenv("VERIF_TIER")
+	}
+	if *tier == "" {
+		*tier = "quick"
+	}
+	if *timeout == 0 {
+		*timeout = 10000
+		if *tier == "thorough" {
+			*timeout = 60000
+		}
+	}
+	return runCheck(id, checkOpts{tier: *tier, workers: *workers, strict: *strict, solver: *solver, filter: *filter, verbose: *verbose, timeout: *timeout, limit: *limit})
 }
